@@ -39,7 +39,8 @@ def run(rep):
                 '(never on a voxel edge) or on the /64 grid with power-of-two voxel counts (samples exactly on edges), 1-7 frames x 1-5 atoms, '
                 'raw coordinates shifted by whole cells, 6 cell families x 3 orientations (unequal axes), random resolution with L/res kept '
                 '0.02 away from integers; TraceGrid checks grid size = L div res per axis, edge band, voxel sum = frames x atoms and the full '
-                'set of (voxel, count) pairs = floor(coordinate x grid size). Round trip for every index of every n up to 512 (quick) / 4096. '
+                'set of (voxel, count) pairs = floor(coordinate x grid size). Round trip for every index of every n up to 512 (quick) / 4096. Scale: a judged small trajectory repeated to > 2^20 samples must give the '
+                'small volume times the number of repeats. '
                 'Non-trivial = volume record with >= 2 occupied voxels.')
     rep.assumptions = ['cell lengths are integers (sqrt of the diagonal of the integer metric tensor) and L/res is >= 0.02 from an integer',
                        'a sample sits on a voxel edge only when the voxel count is a power of two (edge exactly representable)']
@@ -59,6 +60,26 @@ def run(rep):
     ns = list(range(1, 65)) + ([128, 255, 256, 511, 512] if quick else [100, 128, 255, 256, 511, 512, 1000, 1024, 2047, 2048, 4095, 4096])
     for k, nn in enumerate(ns):
         recs.append(grid_drive.roundtrip_record(n + k, nn))
+    # scale: a TLC-judged small trajectory repeated to more than 2^20 (thorough: 2^21 + odd) samples: counts must scale exactly
+    from pymatgen.core import Lattice, Species
+    from gemdat import Trajectory, trajectory_to_volume
+    for total in ([2 ** 20 + 4099] if quick else [2 ** 20 + 4099, 2 ** 21 + 12345]):
+        base = grid_drive.volume_record(rng, n + 5000 + total, 'tric', 'rot')
+        small_T, A = len(base['pos']), len(base['pos'][0])
+        K = -(-total // (small_T * A))
+        Mx = gen.lattice_matrix(gen.FAMILIES['tric'], 'rot', rng)
+        kk = np.array(base['pos'])
+        big = Trajectory(species=[Species('Li')] * A, coords=np.tile(kk / base['N'], (K, 1, 1)), lattice=Lattice(Mx), time_step=1e-15)
+        small = Trajectory(species=[Species('Li')] * A, coords=kk / base['N'], lattice=Lattice(Mx), time_step=1e-15)
+        res = base['meta']['resolution']
+        vs, vb = np.asarray(trajectory_to_volume(small, resolution=res).data), np.asarray(trajectory_to_volume(big, resolution=res).data)
+        rep.evaluations += 1
+        rep.nontrivial += 1
+        rep.extra.setdefault('scale_cases', []).append({'samples': int(K * small_T * A), 'repeats': int(K)})
+        if vs.shape != vb.shape or not np.array_equal(vb, vs * K) or int(vb.sum()) != K * small_T * A:
+            rep.violation({'kind': 'scale', 'clause': 'volume-of-repeated-trajectory-is-not-the-repeated-volume', 'samples': int(K * small_T * A),
+                           'voxel_sum': int(vb.sum()), 'expected_sum': int(K * small_T * A)})
+        recs.append(base)
     nt = sum(1 for r in recs if r['act'] == 'Volume' and len(r['cells']) >= 2)
     for r in recs[:3]:
         rep.sample({k: r[k] for k in ('dims', 'L', 'res', 'cells', 'total', 'meta') if k in r})
